@@ -17,6 +17,64 @@ def inside(v):
     return False
 
 
+def rule_release_condition(ctx, chk):
+    """in the release function every free depends only on the field it releases (plus the owner flag for texts)"""
+    import re
+    from ..ir import manager_call, strip_casts
+    from ..cfgutil import edge_conditions, expr_key
+    chk.rule('release-condition', 'in uriFreeUriMembersMm the release of a block is conditional only on that block\'s own field '
+             '(non-NULL / non-empty), on the owner flag for text ranges and on the URI / manager argument checks - never on an '
+             'unrelated component (a block allocated before that component is set would survive a failure exit)', floor=10)
+    for suf in ('A', 'W'):
+        f = ctx.irp.funcs.get('uriFreeUriMembersMm' + suf)
+        if f is None:
+            raise AnalysisBroken('uriFreeUriMembersMm%s not found' % suf)
+        u = f.params[0]
+        facts, dom = edge_conditions(f)
+        # local aliases (segWalk = uri->pathHead ...)
+        alias = {}
+        for b in f.blocks:
+            for i in b.ins:
+                if i.op == 'assign' and i.dst.k == 'ref' and i.src is not None:
+                    k = expr_key(i.src)
+                    if k.startswith(u + '->') or any(k.startswith(a + '->') for a in alias):
+                        alias[i.dst.v] = k
+        for b in f.blocks:
+            for i in b.ins:
+                if i.op != 'call':
+                    continue
+                mc = manager_call(i)
+                if not mc or mc[0] != 'free':
+                    continue
+                arg = expr_key(i.args[1])
+
+                def root(k):
+                    m = re.search(r'%s->([A-Za-z]+(?:\.(?:ip4|ip6|ipFuture))?)' % re.escape(u), k)
+                    if m:
+                        return m.group(1)
+                    for a, ak in alias.items():
+                        if re.search(r'(?<![A-Za-z0-9_])%s(?![A-Za-z0-9_])' % re.escape(a), k):
+                            return root(ak) or 'pathHead'
+                    return None
+                mine = root(arg)
+                allowed = {mine, 'owner'}
+                if mine == 'hostText':
+                    allowed.add('hostData.ipFuture')
+                if mine == 'hostData.ipFuture':
+                    allowed.add('hostText')
+                others = set()
+                for cond, truth, _d in facts[b.id]:
+                    k = expr_key(cond)
+                    for m in re.finditer(r'%s->([A-Za-z]+(?:\.(?:ip4|ip6|ipFuture))?)' % re.escape(u), k):
+                        if m.group(1) not in allowed:
+                            others.add(m.group(1))
+                key = 'release:%s:%s' % (suf, mine)
+                chk.add('release-condition', key if not others else 'release:%s-depends-on-%s' % (mine, ','.join(sorted(others))),
+                        not others and mine is not None, i.loc,
+                        'free(%s) is conditional on %s' % (arg, ', '.join(sorted(others)) if others else 'its own field only'),
+                        func=f.name)
+
+
 def run(ctx, chk):
     codes = dict((k, ctx.prog.macros.get(k)) for k in ('URI_SUCCESS', 'URI_ERROR_SYNTAX', 'URI_ERROR_MALLOC'))
     chk.explanation = ('Decided on the E1 exploration of the parser source (same abstract machine as C01; every path of every '
@@ -103,6 +161,7 @@ def run(ctx, chk):
                         % (r['function'], entry, code, '; '.join(what), text, ' '.join(notes)), func=r['function'])
             else:
                 chk.ok('failure-leaves-nothing', key, floc, 'code %r, nothing allocated, fields reset' % code, func=r['function'])
+    rule_release_condition(ctx, chk)
     # release function: frees then NULLs, covers the sinks
     eng = shared.effects(ctx)
     memrules.rule_free_then_null(ctx, chk, eng)
